@@ -557,7 +557,7 @@ func (ck *Checker) check(c *ctx, p prov, t *ast.Term, where string) *rej {
 				return reject(UndefFun, "function %s is not defined", t.Body.Fn)
 			}
 			bodyTy = s.ret
-			if t.Ann != nil && !reuse {
+			if t.Ann != nil {
 				at, ill := ck.Env.ResolveAnn(t.Ann, where)
 				if ill != nil {
 					return &rej{reason: CutAnnot, detail: "annotation of " + t.X.S + ": " + ill.Error()}
